@@ -522,6 +522,28 @@ def run_views(chk, which):
                 real_ety = {str(g): [list(s) if s else [] for s in slots] for g, slots in wl.get_etymdict('cogid').items()}
                 if real_ety != ety:
                     bad.append(('etymdict', real_ety, ety))
+                # get_dict in both directions (theorems C12_dictOfCol / C12_dictOfRow / C12_dicts_agree): keys in their order, ids in
+                # their order
+                od = drv.ask('wldicts|%s|%s' % (' '.join(rows), ' '.join(map(str, cols))))
+
+                def parse_d(sec):
+                    dd = {}
+                    for item in sec.split(';'):
+                        if item:
+                            k_, v_ = item.split('=')
+                            dd[k_] = [(kv.split(':')[0], [int(x) for x in kv.split(':')[1].split(',') if x]) for kv in v_.split('/') if kv]
+                    return dd
+                mcol, mrow = [parse_d(x) for x in od[2:].split(' # ')] if od.startswith('D ') else ({}, {})
+                for l in wl.cols:
+                    real_d = [(str(cmap[c_]), [int(x) for x in ids__]) for c_, ids__ in wl.get_dict(col=l).items()]
+                    if real_d != mcol.get(str(lmap[l])):
+                        bad.append(('get_dict col', l, real_d, mcol.get(str(lmap[l]))))
+                for c in wl.rows:
+                    # _dict[concept] is a defaultdict: a language that was merely asked about (by another view) stays behind with an empty
+                    # list; an empty list names no row, it is dropped before comparing
+                    real_d = [(str(lmap[l_]), [int(x) for x in ids__]) for l_, ids__ in wl.get_dict(row=c).items() if len(ids__)]
+                    if real_d != mrow.get(str(cmap[c])):
+                        bad.append(('get_dict row', c, real_d, mrow.get(str(cmap[c]))))
                 for l in wl.cols:
                     if sorted(wl.get_list(col=l, flat=True)) != sorted(lc[str(lmap[l])]):
                         bad.append(('get_list col', l))
